@@ -536,7 +536,9 @@ fn disagree(exp: &Value, obs: &Obs, r: &Rendered, lay: &Layout) -> Option<String
             let (fi, ln) = match r.loc.get(&k) { Some(x) => *x, None => return Some(format!("harness: token {:?} was not rendered", k)) };
             if obs.file != r.files[fi].path { return Some(format!("error names file {} but the damaged token is in {}", obs.file, r.files[fi].path)); }
             let n = r.files[fi].lines.len() as u64;
-            let ok = if rule == "at" { obs.line == ln as u64 } else { obs.line >= ln as u64 && obs.line <= n + 2 };
+            // a missing brace is noticed at the end of the file at the latest: one past the last line, where an included
+            // file, as the parser reads it, has up to two more lines (include() appends "\n}")
+            let ok = if rule == "at" { obs.line == ln as u64 } else { obs.line >= ln as u64 && obs.line <= n + 3 };
             if ok { None } else { Some(format!("error names line {} but the damaged token ({}) is on line {} of {} lines (rule `{}`)", obs.line, exp["why"], ln, n, rule)) }
         }
         _ => Some(format!("harness: unknown expectation kind {}", kind)),
